@@ -206,6 +206,10 @@ func cmdCheck(args []string) int {
 				// live check without a real-code alternative: summaries stay
 				cfg.Summaries = exec.SummariesFor(job.Summaries)
 			}
+			cfg.JobBudget = 25 * time.Minute
+			if *tier == "thorough" {
+				cfg.JobBudget = 45 * time.Minute
+			}
 			to := job.TimeoutMs
 			if to == 0 {
 				to = 30000
@@ -218,6 +222,9 @@ func cmdCheck(args []string) int {
 			rep := jobReport{Name: jobName(job), Bounds: job.Bounds, Strict: strict && (len(job.Sites) > 0 || len(job.Excuses) > 0), Paths: st.Paths, ByStatus: st.ByStatus,
 				Obligations: map[string]int{}, Queries: st.Queries, SolverS: st.SolverTime.Seconds(), WallS: st.Wall.Seconds(),
 				Truncated: st.Truncated, Sites: job.Sites}
+			if st.Truncated {
+				rep.Inconclusive = append(rep.Inconclusive, "exploration stopped at the job time budget: the remaining paths were not explored")
+			}
 			covers := map[string]bool{}
 			// deterministic order
 			sort.Slice(st.Results, func(i, j int) bool { return decKey(st.Results[i].Trace) < decKey(st.Results[j].Trace) })
